@@ -140,6 +140,7 @@ type docState struct {
 	resDict     Dict
 	xobjNum     int
 	formOwner   *pageState // the one page whose last line is drawn by the form XObject
+	box         [4]float64
 	lenObjs     map[int]int // stream object -> its length object
 	kidsObjs    map[int]int
 }
@@ -175,6 +176,10 @@ func GenerateHooked(spec DocSpec, hook func(kind string, num int, o Obj) Obj, pr
 		for i := 1; i < maxObjs; i++ {
 			d.numMap[i] = p[i-1] + 1
 		}
+	}
+	d.box = [4]float64{0, 0, 612, 792}
+	if r.Split("box").Pct(30) {
+		d.box = [4]float64{0, 0, 595.28, 841.89}
 	}
 	d.catalog = d.alloc()
 	d.info = d.alloc()
@@ -549,8 +554,12 @@ func (d *docState) contentFor(lines []Line, r *sim.Rand) []byte {
 	sp := d.spec
 	var b bytes.Buffer
 	nl := "\n"
+	// Spelling choices (how a number or string is written) draw from their own
+	// stream, so that the page's content - which operators, which pieces, which
+	// kerning - is the same for every storage layout of the same logical document.
+	rs := r.Split("spelling")
 	num := func(f float64) string {
-		if f == float64(int(f)) && r.Bool() {
+		if f == float64(int(f)) && rs.Bool() {
 			return strconv.Itoa(int(f))
 		}
 		return fmtReal(f)
@@ -560,7 +569,7 @@ func (d *docState) contentFor(lines []Line, r *sim.Rand) []byte {
 		if f.Kind == FontType0Identity {
 			st.HexPct = sim.MaxInt(st.HexPct, 60)
 		}
-		return Serialise(Str{B: f.Encode(s)}, st, r)
+		return Serialise(Str{B: f.Encode(s)}, st, rs)
 	}
 	wrapQ := r.Pct(30)
 	if wrapQ {
@@ -625,15 +634,11 @@ func (d *docState) contentFor(lines []Line, r *sim.Rand) []byte {
 
 func (d *docState) fillPage(p *pageState, idx int, set map[int]Obj) {
 	sp := d.spec
-	r := d.r.Split("page" + strconv.Itoa(p.num) + "r" + strconv.Itoa(d.w.revs))
-	p.model = PageModel{MediaBox: [4]float64{0, 0, 612, 792}, Rotate: sp.Rotate}
-	if r.Pct(30) {
-		p.model.MediaBox = [4]float64{0, 0, 595.28, 841.89}
-	}
-	if sp.InheritAt > 0 {
-		// inherited boxes are shared by all pages under the same ancestor: keep one box
-		p.model.MediaBox = [4]float64{0, 0, 612, 792}
-	}
+	// keyed by the page's position, not by its object number: renumbering is storage
+	r := d.r.Split("page" + strconv.Itoa(idx) + "r" + strconv.Itoa(d.w.revs))
+	// one page size per document (so that it can be inherited from any ancestor, and so
+	// that the same logical document has the same geometry in every storage layout)
+	p.model = PageModel{MediaBox: d.box, Rotate: sp.Rotate}
 	for _, f := range d.fonts {
 		p.model.FontRes = append(p.model.FontRes, f.ResName)
 	}
